@@ -172,6 +172,7 @@ pub struct Plan {
     pub must_be_nonzero: Vec<String>,
     /// Checks executed after all units (e.g. cross-unit comparisons).
     pub finish: Option<Box<dyn FnOnce(&mut Stats, &Reporter)>>,
+    pub finish_extra: Vec<Box<dyn FnOnce(&mut Stats, &Reporter)>>,
 }
 
 impl Plan {
@@ -186,6 +187,7 @@ impl Plan {
             extra: BTreeMap::new(),
             must_be_nonzero: vec![],
             finish: None,
+            finish_extra: vec![],
         }
     }
 }
@@ -346,6 +348,9 @@ pub fn drive(plan: Plan, tier: Tier) -> ! {
     install_quiet_panic_hook();
     let mut st = total.into_inner().unwrap();
     if let Some(f) = plan.finish {
+        f(&mut st, &rep);
+    }
+    for f in plan.finish_extra {
         f(&mut st, &rep);
     }
     finish_run(
